@@ -92,3 +92,41 @@ def run(unit, em):
                             unit.text(amount, 40), ', '.join(sorted(inc_sets)) or '?', 'counter'), 'dec')
                 else:
                     em.violation(n, txt, 'unexpected modification of the sharing guard', 'mod')
+
+
+# ---- clause `waitset`: the set of children a rule still waits for shrinks only by the state that was just reached
+def run_waitset(unit, em):
+    for fn in unit.functions:
+        if fn.body is None and not fn.d.get('inits'):
+            continue
+        owner = None
+        for a in ANCHORS:
+            if ('VATA::' + a + '()::') in fn.q or (a + '()::') in fn.q:
+                owner = a
+        if owner is None:
+            continue
+        params = {p['d'] for p in fn.params}
+        for n in fn.walk():
+            if n['k'] != 'CXXMemberCallExpr' or n.get('const'):
+                continue
+            o = strip(n.get('obj'))
+            if o is None or o['k'] != 'MemberExpr' or o.get('dk', 'field') != 'field' or not unit.ty(o).replace('const ', '').startswith('std::set<unsigned long'):
+                continue
+            m = method_name(n)
+            if m in ('begin', 'end', 'find', 'count', 'size', 'empty', 'cbegin', 'cend'):
+                continue
+            txt = unit.text(n, 60)
+            arg = strip(n['args'][0]) if n.get('args') else None
+            if m == 'erase' and arg is not None and arg['k'] == 'DeclRefExpr' and arg.get('d') in params and fn.d.get('fk') != 'ctor':
+                em.ok(n, txt, 'the waiting set shrinks by the state reported as reached', 'waitset')
+            else:
+                em.violation(n, txt, 'the set of children a rule waits for is changed other than by erasing the state just reached (%s in %s): the rule can fire before all its children are derivable — e.g. a recursive rule f(q,p) -> q fires before q has a base, is kept as the rule of q, and the witness is empty' % (
+                    m, fn.q.split('::')[-1]), 'waitset')
+
+
+_run_counters = run
+
+
+def run(unit, em):
+    _run_counters(unit, em)
+    run_waitset(unit, em)
